@@ -68,11 +68,18 @@ def witness_history():
     return evs
 
 
+def then_stmts(names):
+    """statements run after every torn-flush recovery: the database must keep working (fresh row ids)"""
+    return [{"k": "insert", "table": names[0], "cols": ["a"], "rows": [[424242]]},
+            {"k": "insert", "table": names[0], "cols": ["a"], "rows": [[434343]]}]
+
+
 def go_events(evs, seed):
     out = []
     for i, e in enumerate(evs):
         if e[0] == "tornflush":
-            out.append({"t": "tornflush", "tables": e[1], "seed": seed + i})
+            out.append({"t": "tornflush", "tables": e[1], "seed": seed + i,
+                        "then": [hist.sql_stmt(s) for s in then_stmts(e[1])]})
         else:
             out.extend(hist.go_events([e]))
     return out
@@ -94,6 +101,12 @@ def torn_cases(evs, outs):
                 ob = list(pob) + ["HOut (%s)" % hist.cq_res(tc["recover"])]
                 if tc["recover"] == "ok":
                     ob.append("HTables %s" % hist.cq_list(hist.cq_table_obs(x) for x in tc.get("tables") or []))
+                    for s2, r2 in zip(then_stmts(e[1]), tc.get("thenRes") or []):
+                        ev.append(("stmt", s2))
+                        ob.append("HOut (%s)" % hist.cq_res(r2))
+                    if tc.get("tables2") is not None:
+                        ev.append(("tables", e[1]))
+                        ob.append("HTables %s" % hist.cq_list(hist.cq_table_obs(x) for x in tc.get("tables2") or []))
                 else:
                     ob.append("HDead")
                     ev = ev[:-1]
@@ -130,7 +143,7 @@ def run(ctx):
         cases.extend(tc)
         owner.extend([hi] * len(tc))
     terms = ["(%s, %s)" % (hist.cq_list(cq_ev(e) for e in ev), hist.cq_list(ob)) for ev, ob, _ in cases]
-    defs = {"SM": "spec_accepts"}
+    defs = {"SM": "spec_accepts_strict"}
     if ctx.model_ok:
         defs["MM"] = "model_agrees"
     okc, res, lg = vlib.run_coq_cases("c04", hist.HEADER, terms, "hcase", defs, shard=60)
